@@ -66,7 +66,14 @@ def rule_u1(ctx):
             for st in blk["stmts"]:
                 if st["k"] == "assign" and st["rv"]["k"] == "aggregate" and st["rv"].get("adt") == "circuit::BuilderGate":
                     if f["id"] not in allowed_ctor:
-                        res.bad(Finding("U1", f["id"], "BuilderGate constructed outside the builder's door", "a gate value is built in %s" % f["id"], st["sp"]))
+                        # a gate value that is only used to look the cache up (a helper of the builder) emits nothing
+                        tainted = mir.forward_taint(body, {st["place"]["l"]}, carries=lambda ty: "BuilderGate" in ty)
+                        if "BuilderGate" not in (f.get("output") or ""):
+                            tainted.discard(0)
+                        emits = [t for _, t in body.calls() if mir.last_seg(mir.callee(t) or "") in ("push_gate", "push", "insert", "extend")
+                                 and any(a["k"] in ("copy", "move") and a["place"]["l"] in tainted for a in t["args"][1:])]
+                        if emits or 0 in tainted:
+                            res.bad(Finding("U1", f["id"], "BuilderGate constructed outside the builder's door", "a gate value is built in %s and stored / emitted / returned there" % f["id"], st["sp"]))
         for b, t in body.calls():
             if mir.callee(t) == PUSH_GATE and f["id"] not in ("circuit::CircuitBuilder::push_xor", "circuit::CircuitBuilder::push_and"):
                 res.bad(Finding("U1", f["id"], "push_gate called outside push_xor / push_and", "gates are emitted without the optimiser in front", t["sp"]))
